@@ -921,7 +921,9 @@ def gen(rng, tier, n=None, focus=None):
         n = n or (150 if tier == "quick" else 2000)
         return [gen_foreign_case(rng, i, tier) for i in range(n)]
     if focus == "extremes":
-        n = n or (16 if tier == "quick" else 200)
+        # (thorough: 200 cases needed ~850 s of model time per profile on 16 cores, more than half of the 25-minute shard limit;
+        #  100 keeps a slower or loaded machine away from it)
+        n = n or (16 if tier == "quick" else 100)
         return [gen_extremes_case(rng, i, tier) for i in range(n)]
     if focus == "malformed":
         n = n or (200 if tier == "quick" else 4000)
